@@ -198,6 +198,70 @@ def dtValue (tm : Tmpl) (used : Nat) (b : Bucket) : R (Option (Int × Int × Int
           | .ok (y', m', d') => .ok (some (y', m', d', t))
       else .ok (some (y, m, d, t))
 
+/-! ### AnnualDate -/
+
+def annualGetter (m d : Int) : Getter
+  | .monthNum => m
+  | .dayOfMonth => d
+  | _ => 0
+
+/-- `_AnnualDateParseBucket.calculate_value` with template value month `tm`, day `td` (the constructor
+    `AnnualDate(month, day)` validates against the year 2000; its checks are implied by the tests before it) -/
+def annualValue (tm td : Int) (used : Nat) (b : Bucket) : Option (Int × Int) :=
+  match determineMonth tm used b with
+  | none => none
+  | some m =>
+    let d := if hasAny used F.dayOfMonth then b .dayOfMonth else td
+    if d > daysInMonth 2000 m then none else some (m, d)
+
+/-! ### Duration -/
+
+def DUR_MIN_NANOS : Int := -(1073741824 * NPD)
+def DUR_MAX_NANOS : Int := 1073741824 * NPD - 1
+
+/-- `Duration.nanosecond_of_day` of the value (floor days `fd`, nanosecond of floor day `n`) -/
+def durNanoOfDay (fd n : Int) : Int := if fd ≥ 0 then n else if n = 0 then 0 else n - NPD
+
+/-- `__get_positive_nanosecond_units(duration, nanoseconds_per_unit, units_per_day)` -/
+def durTotalUnits (fd n npu upd : Int) : Int :=
+  if fd ≥ 0 then fd * upd + Int.tdiv n npu
+  else
+    let nod := durNanoOfDay fd n
+    let neg := if nod = 0 then fd * upd else (fd + 1) * upd + Int.tdiv nod npu
+    Int.neg neg
+
+/-- accessors of a Duration value -/
+def durationGetter (fd n : Int) : Getter
+  | .sign => if fd ≥ 0 then 0 else 1
+  | .dayOfMonth => if fd ≥ 0 then fd else if n = 0 then -fd else -(fd + 1)
+  | .totalHours => durTotalUnits fd n NPH 24
+  | .totalMinutes => durTotalUnits fd n NPMin 1440
+  | .totalSeconds => durTotalUnits fd n NPS 86400
+  | .hours24 => csharpMod (Int.tdiv ((durNanoOfDay fd n).natAbs : Int) NPH) 24
+  | .minutes => csharpMod (Int.tdiv ((durNanoOfDay fd n).natAbs : Int) NPMin) 60
+  | .seconds => csharpMod (Int.tdiv ((durNanoOfDay fd n).natAbs : Int) NPS) 60
+  | .fraction => csharpMod ((durNanoOfDay fd n).natAbs : Int) NPS
+  | _ => 0
+
+/-- `Duration.from_nanoseconds` for an int -/
+def durFromNanos (n : Int) : R (Int × Int) := do
+  checkRange n DUR_MIN_NANOS DUR_MAX_NANOS
+  if n ≥ 0 then pure (Int.fdiv n NPD, Int.fmod n NPD)
+  else
+    let days ← pyTdiv (n + 1) NPD
+    let days := days - 1
+    pure (days, n - days * NPD)
+
+/-- `_DurationParseBucket.calculate_value`: the units were added into one number of nanoseconds (each field occurs at
+    most once: days, hours, minutes, seconds, fraction), negated for a `-` sign, range-checked -/
+def durationValue (b : Bucket) : R (Option (Int × Int)) :=
+  let nanos := b .dayOfMonth * NPD + b .hours24 * NPH + b .minutes * NPMin + b .seconds * NPS + b .fraction
+  let nanos := if b .sign = 1 then -nanos else nanos
+  if nanos < DUR_MIN_NANOS ∨ nanos > DUR_MAX_NANOS then .ok none
+  else match durFromNanos nanos with
+    | .error e => .error e
+    | .ok v => .ok (some v)
+
 /-! ### pattern objects -/
 
 /-- value of a modelled type in canonical fields: time `[nod]`, date `[y, m, d]`, offset `[seconds]` -/
@@ -207,6 +271,8 @@ def getterOf (ty : PType) (v : List Int) : Option Getter :=
   | .date, [y, m, d] => some (dateGetter y m d)
   | .offset, [s] => some (offsetGetter s)
   | .datetime _, [y, m, d, nod] => some (dtGetter y m d nod)
+  | .annual _ _, [m, d] => some (annualGetter m d)
+  | .duration, [fd, n] => some (durationGetter fd n)
   | _, _ => none
 
 def fmtCompiled (c : Compiled) (get : Getter) (buf : Text) : R Text := formatSteps c.cu c.used get c.steps buf
@@ -218,6 +284,8 @@ def bucket0 (ty : PType) : Bucket :=
   | .date => dateBucket0
   | .offset => offsetBucket0
   | .datetime tm => dtBucket0 tm
+  | .annual _ _ => dateBucket0
+  | .duration => offsetBucket0
 
 /-- `bucket.calculate_value(used_fields, text)` in canonical fields -/
 def bucketValue (ty : PType) (used : Nat) (b : Bucket) : R (Option (List Int)) :=
@@ -226,6 +294,8 @@ def bucketValue (ty : PType) (used : Nat) (b : Bucket) : R (Option (List Int)) :
   | .date => .ok ((dateValue used b).map (fun v => [v.1, v.2.1, v.2.2]))
   | .offset => mapR (fun o => o.map (fun s => [s])) (offsetBucketValue b)
   | .datetime tm => mapR (fun o => o.map (fun v => [v.1, v.2.1, v.2.2.1, v.2.2.2])) (dtValue tm used b)
+  | .annual tm td => .ok ((annualValue tm td used b).map (fun v => [v.1, v.2]))
+  | .duration => mapR (fun o => o.map (fun v => [v.1, v.2])) (durationValue b)
 
 /-- `__SteppedPattern.parse`: empty text, parse actions, `calculate_value`, end of text (by position) -/
 def parseCompiled (ty : PType) (c : Compiled) (l : Text) : R (Option (List Int)) :=
